@@ -8,6 +8,7 @@ accumulate. Not the run/skip iff nor the AST dependency finder.
 import ast
 from typing import Dict, List, Optional, Set
 
+from ..boolx import show, valuations
 from ..cfg import CFG, describe_path
 from ..model import AnalysisError, FuncInfo
 from ..nodes import DESER_MOD, is_ve
@@ -327,6 +328,133 @@ def check(ctx):
                               "the continuation after a discard is not derived from the remaining part of the current validator list", v, c,
                               detail="continuation = filtered tail of the current list (inherits earlier filters)")
 
+    # ---------------- R6: each validator of the list is invoked once, with the right arguments
+    ctx.rule("C10.R6", "validate(): every path of an iteration invokes validator.validate(obj, ...) once with the documented arguments; errors are located under the aliased field; the discard continuation forwards obj, kwargs and aliaser", floor=6)
+    tries = [t for t in walk_no_nested(loop) if isinstance(t, ast.Try) and any(isinstance(c, ast.Call) and norm(c.func) == "validator.validate" for st in t.body for c in ast.walk(st))]
+    ctx.require(len(tries) == 1, f"validate(): {len(tries)} try statements invoke validator.validate in the loop (expected 1)")
+    t0 = tries[0]
+
+    def invocations(stmts):
+        """(min, max) number of validator.validate(obj...) calls over the paths of a statement list"""
+        lo = hi = 0
+        for st in stmts:
+            if isinstance(st, ast.If):
+                a = invocations(st.body)
+                b = invocations(st.orelse)
+                lo, hi = lo + min(a[0], b[0]), hi + max(a[1], b[1])
+            else:
+                k = sum(1 for c in ast.walk(st) if isinstance(c, ast.Call) and norm(c.func) == "validator.validate")
+                lo, hi = lo + k, hi + k
+        return lo, hi
+
+    lo, hi = invocations(t0.body)
+    ctx.check((lo, hi) == (1, 1), "C10.R6", f"{v.qualname}:invoked", t0.body[0],
+              f"an iteration of the validator loop invokes validator.validate between {lo} and {hi} times: " + ("on some path the validator is skipped although its fields are valid" if lo == 0 else "a validator runs more than once"),
+              v, t0, detail="exactly one validator.validate(obj, ...) per path")
+    from ..pathcond import complements, parents_of, path_condition
+    from ..boolx import BoolEval, Unknown
+    pmap = parents_of(fn)
+    tmap = parents_of(t0)
+    ev6 = BoolEval(complements({"kwargs": "has_kwargs", "validator.params == kwargs.keys()": "same_keys", "kwargs.keys() == validator.params": "same_keys"}))
+    forms = {"validator.validate(obj)": lambda x: not x["has_kwargs"],
+             "validator.validate(obj, **kwargs)": lambda x: x["has_kwargs"] and x["same_keys"],
+             "validator.validate(obj, **{k: kwargs[k] for k in validator.params})": lambda x: x["has_kwargs"] and not x["same_keys"]}
+    for c in ast.walk(t0):
+        if isinstance(c, ast.Call) and norm(c.func) == "validator.validate":
+            text = norm(c)
+            want = forms.get(text)
+            if want is None:
+                ctx.fail("C10.R6", f"{v.qualname}:call-form", c, f"`{text}` is not one of the documented invocation forms (obj alone; obj with all kwargs; obj with the parameters the validator declares)", v.module.relpath, c.lineno)
+                continue
+            try:
+                got = ev6.compile(path_condition(t0, c, tmap))
+                bad = [x for x in ({"has_kwargs": a, "same_keys": b} for a in (False, True) for b in (False, True)) if bool(got(x)) != bool(want(x))]
+            except Unknown as err:
+                ctx.undecided("C10.R6", f"{v.qualname}:{text}: {err}")
+                continue
+            ctx.check(not bad, "C10.R6", f"{v.qualname}:{text[:40]}", c, f"`{text}` is selected under the wrong condition ({bad[:1]}): extra / missing keyword arguments make the validator raise TypeError or skip parameters", v, c, detail="form matches the kwargs situation")
+    # location of the error
+    loc_ok = any(isinstance(n, ast.Assign) and norm(n.targets[0]) == "err" and isinstance(n.value, ast.Call) and (dotted(n.value.func) or "").endswith("ValidationError")
+                 and any(k.arg == "children" and isinstance(k.value, ast.Dict) and k.value.keys and norm(k.value.keys[0]) == "aliaser(alias)" and norm(k.value.values[0]) == "err" for k in n.value.keywords)
+                 and "validator.field is not None" in norm(path_condition(fn, n, pmap)) for n in ast.walk(loop))
+    ctx.check(loc_ok, "C10.R6", f"{v.qualname}:field-location", loop, "the error of a field validator is no longer nested under the aliased field name (aliaser(alias)) when validator.field is set", v, loop, detail="ValidationError(children={aliaser(alias): err}) iff validator.field is not None")
+    # continuation arguments
+    for c in ast.walk(loop):
+        if isinstance(c, ast.Call) and isinstance(c.func, ast.Name) and c.func.id == "validate":
+            args = [norm(a) for a in c.args]
+            kws = {k.arg: norm(k.value) for k in c.keywords}
+            ctx.check(args[:1] == ["obj"] and (args[2:3] == ["kwargs"] or kws.get("kwargs") == "kwargs") and kws.get("aliaser") == "aliaser", "C10.R6", f"{v.qualname}:continuation-args", c,
+                      f"`{short(c, 70)}`: the continuation after a discard does not forward obj / kwargs / aliaser: the remaining validators run on other arguments or their errors lose the aliaser", v, c, detail="validate(obj, next_validators, kwargs, aliaser=aliaser)")
+    # the error handler converts through the aliaser and both outcomes of the continuation raise the merged error
+    h_ok = any(isinstance(h, ast.ExceptHandler) and is_ve(model, v, h.type) and any(norm(x) == "err = apply_aliaser(e, aliaser)" or ("apply_aliaser(" in norm(x) and "aliaser" in norm(x)) for x in h.body) for h in t0.handlers)
+    ctx.check(h_ok, "C10.R6", f"{v.qualname}:aliased-error", t0, "the validator's error no longer goes through apply_aliaser(e, aliaser)", v, t0, detail="err = apply_aliaser(e, aliaser)")
+    merged = any(isinstance(n, ast.Assign) and norm(n) == "error = merge_errors(error, err)" for n in walk_no_nested(loop))
+    ctx.check(merged, "C10.R6", f"{v.qualname}:accumulated", loop, "a failing validator's error is not merged into the accumulated error", v, loop, detail="error = merge_errors(error, err)")
+
+    # ---------------- R7: the object node's validator section
+    ctx.rule("C10.R7", "ObjectMethod: validators whose dependencies are all valid run on the mock when other fields failed (their errors merged and raised), all selected validators run on the constructed object otherwise; init values come from the data or, for valid absent fields only, from the default factory", floor=8)
+    omn = om.node
+    opar = parents_of(omn)
+    from .common_children import _bindings
+    ev7 = BoolEval(complements({"self.validators": "has_validators", "self.init_defaults": "has_init", "name in values": "in_values", "field_errors": "has_ferr", "errors": "has_err",
+                                "name not in field_errors": "!name_failed", "default_factory is not None": "has_factory"}))
+    names7 = ["has_validators", "has_init", "in_values", "has_ferr", "has_err", "name_failed", "has_factory"]
+    dom7 = lambda x: x["has_validators"] and x["has_factory"] and (not x["name_failed"] or x["has_ferr"])
+    sites7 = {"init-from-data": ([a for a in ast.walk(omn) if isinstance(a, ast.Assign) and norm(a) == "init[name] = values[name]"], lambda x: x["has_init"] and x["in_values"]),
+              "init-from-default": ([a for a in ast.walk(omn) if isinstance(a, ast.Assign) and norm(a) == "init[name] = default_factory()"], lambda x: x["has_init"] and not x["in_values"] and not x["name_failed"])}
+    calls7 = [c for c in ast.walk(omn) if isinstance(c, ast.Call) and isinstance(c.func, ast.Name) and c.func.id == "validate"]
+    mock = [c for c in calls7 if c.args and isinstance(c.args[0], ast.Call) and (dotted(c.args[0].func) or "").endswith("ValidatorMock")]
+    real = [c for c in calls7 if c not in mock]
+    sites7["mock-run"] = (mock, lambda x: x["has_ferr"] or x["has_err"])
+    sites7["real-run"] = (real, lambda x: not (x["has_ferr"] or x["has_err"]))
+    for kind, (ss, want) in sites7.items():
+        if len(ss) != 1:
+            ctx.fail("C10.R7", f"{om.qualname}:{kind}", None, f"expected exactly one `{kind}` site in the validator section of ObjectMethod.deserialize, found {len(ss)}", om.module.relpath, omn.lineno)
+            continue
+        try:
+            got = ev7.compile(path_condition(omn, ss[0], opar))
+            bad = next((x for x in valuations(names7, dom7) if bool(got(x)) != bool(want(x))), None)
+        except Unknown as err:
+            ctx.undecided("C10.R7", f"{om.qualname}:{kind}: {err}")
+            continue
+        ctx.check(bad is None, "C10.R7", f"{om.qualname}:{kind}", ss[0], f"`{short(ss[0], 60)}` is reached under the wrong condition ([{show(bad) if bad else ''}])", om, ss[0], detail="truth table of the reach condition")
+    if len(mock) == 1 and len(real) == 1:
+        mc, rc = mock[0], real[0]
+        bind7 = _bindings(omn)
+        # the mock carries the deserialized values; the filtered list excludes validators depending on an invalid field
+        ctx.check(len(mc.args[0].args) >= 2 and norm(mc.args[0].args[1]) == "values", "C10.R7", f"{om.qualname}:mock-values", mc, "the validator mock is not built from the deserialized values", om, mc, detail="ValidatorMock(cls, values)")
+        flt = mc.args[1] if len(mc.args) > 1 else None
+        sname = None
+        ok = isinstance(flt, (ast.ListComp, ast.GeneratorExp)) and norm(flt.generators[0].iter) == "validators" and len(flt.generators[0].ifs) == 1
+        if ok:
+            t_ = flt.generators[0].ifs[0]
+            ok = isinstance(t_, ast.Call) and norm(t_.func) == f"{norm(flt.generators[0].target)}.dependencies.isdisjoint" and len(t_.args) == 1 and isinstance(t_.args[0], ast.Name)
+            sname = t_.args[0].id if ok else None
+        ctx.check(ok, "C10.R7", f"{om.qualname}:mock-filter", mc, "on the error path validators are not filtered by `dependencies.isdisjoint(<invalid fields>)`: a validator reads a field that failed (AttributeError on the mock) or a valid one is skipped", om, mc, detail="[v for v in validators if v.dependencies.isdisjoint(invalid_fields)]")
+        inv = [a for a in ast.walk(omn) if isinstance(a, ast.Assign) and sname and norm(a.targets[0]) == sname]
+        aug = [a for a in ast.walk(omn) if isinstance(a, ast.AugAssign) and sname and norm(a.target) == sname]
+        txt = " ; ".join(norm(a.value) for a in inv)
+        cond_ok = any("field_errors.keys()" in norm(a.value) and sname in norm(a.value) and isinstance(a.value, ast.BinOp) and isinstance(a.value.op, ast.BitOr) for a in inv)
+        ctx.check("self.post_init_modified" in txt and cond_ok and not aug, "C10.R7", f"{om.qualname}:invalid-fields", (aug or inv or [omn.body[0]])[0],
+                  "the set of invalid fields is not post_init_modified united (into a new set) with the keys of field_errors" + (": the in-place update mutates the node's own post_init_modified, so failed fields accumulate across calls" if aug else ""),
+                  om, (aug or inv or [omn])[0], detail="post_init_modified | field_errors.keys()")
+        for c, nm in ((mc, "mock"), (rc, "real")):
+            kws = {k.arg: norm(k.value) for k in c.keywords}
+            third = norm(c.args[2]) if len(c.args) > 2 else kws.get("kwargs")
+            ctx.check(third == "init" and kws.get("aliaser") == "self.aliaser", "C10.R7", f"{om.qualname}:{nm}-args", c, f"`{short(c, 60)}` does not pass the init values and the node's aliaser", om, c, detail="validate(..., init, aliaser=self.aliaser)")
+        # real run on the constructed object with the selected validators
+        ctx.check(norm(rc.args[0]) in ("obj", "self.constructor.construct(values)") and norm(rc.args[1]) == "validators" and isinstance(opar.get(rc), ast.Return), "C10.R7", f"{om.qualname}:real-run-args", rc,
+                  "the validated object is not the constructed one, or the result of validate() is not what is returned", om, rc, detail="return validate(obj, validators, init, ...)")
+        sel = bind7.get("validators")
+        ok = isinstance(sel, ast.ListComp) and norm(sel.generators[0].iter) == "self.validators" and [norm(x) for x in sel.generators[0].ifs] == [f"not {norm(sel.generators[0].target)}.dependencies.isdisjoint(aliases)"] and norm(bind7.get("aliases")) == "values.keys()"
+        ctx.check(ok, "C10.R7", f"{om.qualname}:selection", sel if sel is not None else omn.body[0], "validators are not selected as those with at least one dependency among the deserialized values", om, sel if sel is not None else omn, detail="not v.dependencies.isdisjoint(values.keys())")
+        # mock errors merged, then raised
+        tr = opar.get(opar.get(mc))
+        merged_ok = isinstance(tr, ast.Try) and any(is_ve(model, om, h.type) and any(norm(x) == f"error = merge_errors(error, {h.name})" for x in h.body) for h in tr.handlers)
+        blk = next((b for b in (getattr(opar.get(tr), "body", []), getattr(opar.get(tr), "orelse", [])) if tr in b), []) if tr is not None else []
+        after = blk[blk.index(tr) + 1:] if tr in blk else []
+        ctx.check(merged_ok and after and norm(after[0]) == "raise error", "C10.R7", f"{om.qualname}:mock-merge", mc, "errors of the validators run on the mock are not merged into the structural error and raised", om, mc, detail="error = merge_errors(error, err); raise error")
+
 
 def fixtures(ctx):
     src = "def f(xs, i=0):\n    for i, x in enumerate(xs):\n        f(xs[i:])\n        f(xs[i + 1:])\n"
@@ -346,6 +474,19 @@ def mutants(mb):
     V = "apischema/validation/validators.py"
     E = "apischema/validation/errors.py"
     M = "apischema/deserialization/methods.py"
+    mb.add_text("validator-not-invoked", V, "            elif validator.params == kwargs.keys():\n                validator.validate(obj, **kwargs)\n", "            elif validator.params == kwargs.keys():\n                pass\n", "C10.R6", "invoked")
+    mb.add_text("validator-kwargs-test-flipped", V, "            elif validator.params == kwargs.keys():\n", "            elif validator.params != kwargs.keys():\n", "C10.R6", "validate")
+    mb.add_text("validator-field-location-lost", V, "            err = ValidationError(children={aliaser(alias): err})\n", "            pass\n", "C10.R6", "field-location")
+    mb.add_text("validator-location-raw-alias", V, "            err = ValidationError(children={aliaser(alias): err})\n", "            err = ValidationError(children={alias: err})\n", "C10.R6", "field-location")
+    mb.add_text("continuation-drops-kwargs", V, "                validate(obj, next_validators, kwargs, aliaser=aliaser)\n", "                validate(obj, next_validators, aliaser=aliaser)\n", "C10.R6", "continuation-args")
+    mb.add_text("error-not-accumulated", V, "        error = merge_errors(error, err)\n", "        error = err\n", "C10.R", "")
+    mb.add_text("object-mock-run-dropped", M, "                try:\n                    validate(\n                        ValidatorMock(self.constructor.cls, values),\n                        [\n                            v\n                            for v in validators\n                            if v.dependencies.isdisjoint(invalid_fields)\n                        ],\n                        init,\n                        aliaser=self.aliaser,\n                    )\n                except ValidationError as err:\n                    error = merge_errors(error, err)\n                raise error", "                raise error", "C10.R7", "mock-run")
+    mb.add_text("object-invalid-fields-forgotten", M, "                if field_errors:\n                    invalid_fields = invalid_fields | field_errors.keys()\n", "", "C10.R7", "invalid-fields")
+    mb.add_text("object-init-from-default-when-failed", M, "                    elif not field_errors or name not in field_errors:", "                    elif not field_errors or name in field_errors:", "C10.R7", "init-from-default")
+    mb.add_text("object-init-guard-flipped", M, "                    if name in values:\n                        init[name] = values[name]", "                    if name not in values:\n                        init[name] = values[name]", "C10.R7", "init-from-data")
+    mb.add_text("object-selection-inverted", M, "                v for v in self.validators if not v.dependencies.isdisjoint(aliases)", "                v for v in self.validators if v.dependencies.isdisjoint(aliases)", "C10.R7", "selection")
+    mb.add_text("object-real-run-no-init", M, "            return validate(obj, validators, init, aliaser=self.aliaser)", "            return validate(obj, validators, aliaser=self.aliaser)", "C10.R7", "real-args")
+    mb.add_text("neg-invalid-fields-renamed", M, "                invalid_fields = self.post_init_modified\n                if field_errors:\n                    invalid_fields = invalid_fields | field_errors.keys()\n", "                failed = self.post_init_modified\n                if field_errors:\n                    failed = failed | field_errors.keys()\n", negative=True)
     mb.add_text("validators-i", V, "validators[i + 1 :]", "validators[i:]", "C10.R1", "validate")
     mb.add_text("rec-build-no-slice", E, "_rec_build_error(path[1:], msg)", "_rec_build_error(path[0:], msg)", "C10.R1", "_rec_build_error")
     mb.add_text("apply-aliaser-self", E, "        child2 = apply_aliaser(child, aliaser)\n", "        child2 = apply_aliaser(error, aliaser)\n", "C10.R1", "apply_aliaser")
